@@ -286,4 +286,30 @@ def cs_unit():
                 invariants={(func, "for#1"): inv}, allowed_raise=lambda ctx: BoolVal(False), **COMMON)
 
 
-UNITS = [SS_UNIT, FC_UNIT, FP_UNIT, cs_unit()]
+
+# ------------------------------------------------------------------------------------------------ Stack.as_stdlib_summary
+from_list = Function("StackSummary.from_list", Val, Val)
+
+
+def sa_setup(ex, p):
+    self = sym_ref(p, "self", "Stack")
+    sc, sh, cl = sym_bool(p, "show_contexts"), sym_bool(p, "show_hidden_frames"), sym_bool(p, "capture_locals")
+    p.env.update(self=self, show_contexts=sc, show_hidden_frames=sh, capture_locals=cl)
+    def m_from_list(ex_, p_, args, kw, node):
+        if len(args) != 1 or kw:
+            raise Unsupported("StackSummary.from_list call shape")
+        return [("ok", p_, SV(from_list(args[0].t), ty="StackSummary"))]
+    ex.unit.bindings["traceback.StackSummary.from_list"] = m_from_list
+    return dict(self=self, sc=sc, sh=sh, cl=cl)
+
+
+def sa_post(ctx):
+    a = ctx.args
+    # the summary is built from exactly this stack's entries with the three flags in their own positions
+    return ctx.result.t == from_list(stk_summ(a["self"].t, a["sc"].t, a["sh"].t, a["cl"].t))
+
+
+SA_UNIT = Unit("C19.Stack.as_stdlib_summary", TY + "Stack.as_stdlib_summary", sa_setup, post=[Clause("C19.summary_is_from_list_of_own_entries", sa_post)],
+               allowed_raise=lambda ctx: BoolVal(False), **COMMON)
+
+UNITS = [SS_UNIT, FC_UNIT, FP_UNIT, cs_unit(), SA_UNIT]
